@@ -4,6 +4,9 @@ import WgslVerif.Props.C12
 import WgslVerif.Props.C13
 import WgslVerif.Props.C14
 import WgslVerif.Props.C15
+import WgslVerif.Props.C05
+import WgslVerif.Props.C06
+import WgslVerif.Props.C16
 /-
 Driver checks for the properties whose specification is a decidable predicate `CxxOk m out`
 proved of the model in Props/Cxx: the same predicate is evaluated on the REAL output.
@@ -127,6 +130,76 @@ def c12 (c : Ctx) (r : Run) : Verdict :=
         [s!"overrides{min m.overrides.length 9}"] ++ (if m.overrides.any (·.id.isSome) then ["with-id"] else []) ++
         (if m.overrides.any (·.hasInit) then ["optional"] else []) ++ (if m.overrides.any (!·.hasInit) then ["required"] else []) ++
         (if m.overrides.any (fun ov => isBoolScalar m ov.ty) then ["bool"] else []) }
+  | _, _ => { corr := corr, spec := .skip "no-output" }
+
+def c05 (c : Ctx) (r : Run) : Verdict :=
+  let (cmp, _) := CheckGen.compare c r
+  let corr := CheckGen.corrFor cmp ["struct-names", "struct-asserts"]
+  match c.module, r.real with
+  | some m, .ok o =>
+    if !typeArenaOkB m then { corr := .fail "hypothesis#typeArena: module outside TypeArenaOk", spec := .skip "hypothesis" } else
+    if c.valid && !WgslLayout.layoutOK m then
+      { corr := .fail s!"hypothesis#layoutOK: naga's recorded layout differs from Ext.WgslLayout at type {shortRepr (WgslLayout.firstBad m)}", spec := .skip "hypothesis" } else
+    let spec : Status := if decide (C05Ok m r.opts o) then .ok else
+      match o.structs.find? fun s => !decide (StructAssertsOk m r.opts s) with
+      | some s =>
+        let cl := if s.asserts.isEmpty then "missing-checks" else
+          match s.asserts.head? with
+          | some (.size ..) => "wrong-check"
+          | _ => "size-check-missing"
+        .fail s!"c05#{cl}: struct {s.name}: {shortRepr s.asserts 400}"
+      | none => .fail "c05#unknown: ?"
+    let nhs := (o.structs.filter fun s => !s.asserts.isEmpty).length
+    { corr := corr, spec := spec,
+      tags := if o.structs.isEmpty then [] else
+        (if r.opts.bmHost then [s!"checked{min nhs 9}"] else ["bytemuck-host-off"]) ++
+        (if o.structs.any (fun s => s.asserts.isEmpty) && r.opts.bmHost then ["unchecked-struct"] else []) }
+  | _, _ => { corr := corr, spec := .skip "no-output" }
+
+def c06 (c : Ctx) (r : Run) : Verdict :=
+  let (cmp, _) := CheckGen.compare c r
+  let corr := CheckGen.corrFor cmp ["struct-names", "struct-fields"]
+  match c.module, r.real with
+  | some m, .ok o =>
+    if !typeArenaOkB m then { corr := .fail "hypothesis#typeArena: module outside TypeArenaOk", spec := .skip "hypothesis" } else
+    let spec : Status := if decide (C06Ok m o) then .ok else
+      match o.structs.find? fun s => !decide (StructOk m s) with
+      | some s =>
+        let cl := match structMembersNamed m s.name with
+          | none => "no-such-struct"
+          | some members =>
+            let mem := members.filter fun mem => !isBuiltinMember mem
+            if s.fields.length != mem.length then "field-count"
+            else if s.fields.map (fun (f : RField) => f.name) != mem.filterMap (fun (x : Member) => x.name) then "field-names-or-order"
+            else "field-type"
+        .fail s!"c06#{cl}: struct {s.name}: fields {shortRepr (s.fields.map fieldDenote) 300} spec {shortRepr ((structMembersNamed m s.name).map fun ms => (ms.filter fun mem => !isBuiltinMember mem).map (fieldSpec m)) 300}"
+      | none => .fail "c06#unknown: ?"
+    let reprTag := match r.opts.repr with | .rust => "rust" | .glam => "glam" | .nalgebra => "nalgebra"
+    { corr := corr, spec := spec,
+      tags := if o.structs.isEmpty then [] else [reprTag] ++
+        (if o.structs.any (fun s => s.fields.any (·.runtime)) then ["runtime-array"] else []) ++
+        (if o.structs.any (fun s => s.fields.any fun f => match f.ty with | .named _ => true | .array (.named _) _ => true | _ => false) then ["nested"] else []) }
+  | some _, .panic _ => { corr := corr, spec := .skip "panic", tags := ["panic"] }
+  | _, _ => { corr := corr, spec := .skip "no-output" }
+
+def c16 (c : Ctx) (r : Run) : Verdict :=
+  let (cmp, _) := CheckGen.compare c r
+  let corr := CheckGen.corrFor cmp ["source", "boiler"]
+  match c.module, r.real with
+  | some _, .ok o =>
+    let spec : Status := if decide (C16Ok c.src c.path o) then .ok else
+      match c.path, o.source with
+      | some p, .includeStr p' => .fail s!"c16#include-path: expected {p} real {p'}"
+      | none, .literal v raw =>
+        if v != c.src then .fail s!"c16#literal-value: the literal's value differs from the source ({v.length} vs {c.src.length} chars)"
+        else if RustLex.unescapeToken raw != some c.src then .fail s!"c16#literal-token: RustLex.unescapeToken of the raw token is not the source"
+        else .fail "c16#consumer: create_shader_module template differs"
+      | _, _ => .fail "c16#source-kind: literal vs include_str! does not follow the path argument"
+    let nonAscii := c.src.toList.any fun ch => ch.toNat > 127
+    let esc := c.src.toList.any fun ch => ch == '"' || ch == '\\' || ch.toNat < 32
+    { corr := corr, spec := spec,
+      tags := [if c.path.isSome then "include" else "embedded"] ++ (if nonAscii then ["non-ascii"] else []) ++
+        (if esc then ["needs-escapes"] else []) ++ (if c.src.toList.any (fun ch => ch.toNat > 0xFFFF) then ["non-bmp"] else []) }
   | _, _ => { corr := corr, spec := .skip "no-output" }
 
 end CheckSimple
